@@ -40,7 +40,7 @@ let run inp obs : string option * string option =
             let want = canon (tree_of_string (String.sub pe (i + 1) (String.length pe - i - 1))) in
             let have = under p m in
             if have = want then None
-            else Some (Printf.sprintf "path-bound field %s (request with an inapplicable query key): the URL path captured %s, the handler received %s"
+            else Some (Printf.sprintf "path-bound field %s (request with an inapplicable query key or a form-encoded body): the URL path captured %s, the handler received %s"
                          (String.sub pe 0 i) (string_of_tree want) (string_of_tree have)))
           (split_on ',' expect), None))
   | _ -> (Some "unparsable C07 case", None)
